@@ -582,6 +582,9 @@ func (s *State) evalIndexRangeExpression(left object.Object, leftIdx, rightIdx a
 			r = int64(num) + r
 		}
 	}
+	// Clamp to what exists on both sides (a negative index reaching before the start is the start).
+	l = max(l, 0)
+	r = max(r, 0)
 	if l > r {
 		return s.NewError("range index invalid: left greater then right")
 	}
